@@ -682,6 +682,43 @@ Section Proofs.
     rewrite E in H. inversion H; subst. split; [exact H1|]. split; [exact H2|]. split; [exact H3|].
     split; [exact H4|]. rewrite <- (map_upper_valid rs H2). exact H4.
   Qed.
+  (* per element of a batch: a requested name that is valid, not a keyword and collides neither with
+     the avoid set nor with the ids chosen before it in the batch is kept *)
+  Lemma pick_list_loop_app : forall pre post U rs, pick_list_loop (pre ++ post) U = Some rs ->
+    exists rs1 rs2, rs = rs1 ++ rs2 /\ length rs1 = length pre /\
+      pick_list_loop post (rev (map upper rs1) ++ U) = Some rs2.
+  Proof using Type.
+    try clear kw_ok; try clear upper_idem.
+    induction pre as [|i p IH]; intros post U rs H.
+    - exists [], rs. cbn. auto.
+    - cbn [app Ident.pick_list_loop] in H.
+      destruct (pick_col_ident i U) as [r|]; [|discriminate].
+      destruct (pick_list_loop (p ++ post) (upper r :: U)) as [rs'|] eqn:E; [|discriminate].
+      inversion H; subst. destruct (IH _ _ _ E) as [a [b [-> [Hl Hb]]]].
+      exists (r :: a), b. split; [reflexivity|]. split; [cbn; lia|].
+      cbn [map rev]. rewrite <- app_assoc. exact Hb.
+  Qed.
+
+  Lemma pick_list_elem_kept : forall pre s post avoid rs,
+    pick_col_ident_list (pre ++ Some s :: post) avoid = Some rs ->
+    valid_identb s = true -> iskeyword s = false ->
+    (forall a, In a avoid -> upper s <> upper a) ->
+    (forall r, In r (firstn (length pre) rs) -> upper s <> upper r) ->
+    nth_error rs (length pre) = Some s.
+  Proof using cap_ascii nfkd_ascii combining_ascii upper_idem.
+    try clear kw_ok.
+    intros pre s post avoid rs H Hv Hk Hf Hd. unfold Ident.pick_col_ident_list in H.
+    destruct (pick_list_loop_app _ _ _ _ H) as [rs1 [rs2 [-> [Hl H2]]]].
+    rewrite <- Hl in *. rewrite firstn_app, firstn_all, Nat.sub_diag, firstn_O, app_nil_r in Hd.
+    cbn [Ident.pick_list_loop] in H2. rewrite (pick_col_kept s _ Hv Hk) in H2.
+    - destruct (pick_list_loop post _) as [rest|]; [|discriminate]. inversion H2; subst.
+      rewrite nth_error_app2, Nat.sub_diag by lia. reflexivity.
+    - intros u Hu. apply in_app_or in Hu. destruct Hu as [Hu|Hu].
+      + apply in_rev in Hu. apply in_map_iff in Hu. destruct Hu as [r [<- Hr]].
+        rewrite upper_idem_str. apply Hd. exact Hr.
+      + unfold uppercase in Hu. apply in_map_iff in Hu. destruct Hu as [a [<- Ha]].
+        rewrite upper_idem_str. apply Hf. exact Ha.
+  Qed.
 End Proofs.
 
 (* The table-driven oracle instances used by the correspondence check satisfy the ASCII hypotheses by
